@@ -3,7 +3,7 @@ import os, json, glob
 import ps, iterlib, oracle
 
 LEVEL = "proof"
-THEOREMS = ["C01_next_calls_spec", "C01_every_call_returns", "pg_primes_spec", "smallPrimes_ok", "primePi_ok"]
+THEOREMS = ["C01_next_calls_spec", "C01_every_call_returns", "pg_primes_spec", "smallPrimes_ok", "primePi_ok", "C01_next_calls_model_kernel"]
 ASSUMPTIONS = [
     "erat_spec: the segmented sieve proper (Erat: presieve + EratSmall/Medium/Big cross-off + SievingPrimes) yields exactly the primes of [max(start,721), stop]; visible hypothesis of C01_next_calls_spec, exercised by the correspondence at all magnitudes, sieve sizes and both dispatch builds",
     "chunk-length heuristics, block layout, stop_hint: universally quantified",
